@@ -45,14 +45,24 @@ Proof.
   intros H. unfold sstep.
   set (now := match o with SResponse n _ _ _ _ _ => n | SEmpty n _ _ => n | SNetError n => n | SApp n _ => n end).
   pose proof (WF_pass_time k now H) as W0. destruct (pass_time k now) as [k0 outs0]. cbn [fst] in W0.
+  assert (WE : forall mt mid, WF (fst (empty_step k0 now mt mid))).
+  { intros mt mid. unfold empty_step. destruct mt, mid, (k_exchange k0); cbn [fst]; auto; try apply WF_sync.
+    destruct (add_event _ _ _) as [s' outs]. apply WF_sync. }
   destruct o as [n mt id observe tok mid | n mt mid | n | n a].
-  - set (k1 := match mt with ACK => if mid then sync k0 (k_sys k0) (k_token k0) None else k0 | _ => k0 end).
-    assert (W1 : WF k1). { unfold k1. destruct mt; auto. destruct mid; auto. apply WF_sync. }
-    pose proof (WF_process_response k1 now id observe tok W1) as W2.
-    destruct (process_response k1 now id observe tok) as [[k2 outs] matched]. cbn [fst] in W2.
-    destruct (escaped outs); cbn [fst]; exact W2.
-  - destruct mt, mid, (k_exchange k0); cbn [fst]; auto; try apply WF_sync.
-    destruct (add_event _ _ _) as [s' outs]. apply WF_sync.
+  - assert (G : forall mt', mt' <> RST -> mt' = mt ->
+      WF (fst (let k1 := match mt' with ACK => if mid then sync k0 (k_sys k0) (k_token k0) None else k0 | _ => k0 end in
+               let '(k2, outs, matched) := process_response k1 now id observe tok in
+               if escaped outs then (k2, map App outs)
+               else (k2, map App outs ++ match mt' with CON => [Wire (if matched then ACK else RST)] | _ => [] end)))).
+    { intros mt' _ _. cbv zeta.
+      set (k1 := match mt' with ACK => if mid then sync k0 (k_sys k0) (k_token k0) None else k0 | _ => k0 end).
+      assert (W1 : WF k1). { unfold k1. destruct mt'; auto. destruct mid; auto. apply WF_sync. }
+      pose proof (WF_process_response k1 now id observe tok W1) as W2.
+      destruct (process_response k1 now id observe tok) as [[k2 outs] matched]. cbn [fst] in W2.
+      destruct (escaped outs); cbn [fst]; exact W2. }
+    match goal with |- WF (fst (let '(k', outs) := ?X in _)) => assert (WX : WF (fst X)); [| destruct X; exact WX] end.
+    destruct mt; [exact (G CON ltac:(discriminate) eq_refl)|exact (G NON ltac:(discriminate) eq_refl)|exact (G ACK ltac:(discriminate) eq_refl)|apply WE].
+  - match goal with |- WF (fst (let '(k', outs) := ?X in _)) => assert (WX : WF (fst X)); [apply WE| destruct X; exact WX] end.
   - destruct (dispatch_error k0 NetworkError) as [k1 outs]. apply WF_sync.
   - destruct (step (k_sys k0) a) as [s' outs]. apply WF_sync.
 Qed.
@@ -109,10 +119,8 @@ Theorem late_notification_rejected : forall k now mt id observe tok mid j,
 Proof.
   intros k now mt id observe tok mid j Ht Hmt. cbv zeta. unfold sstep.
   destruct (pass_time_token_gone k now j Ht) as [T0 V0]. destruct (pass_time k now) as [k0 outs0]. cbn [fst snd] in *.
-  assert (E : process_response (match mt with ACK => if mid then sync k0 (k_sys k0) (k_token k0) None else k0 | _ => k0 end) now id observe tok
-              = (k0, [], false)).
-  { destruct Hmt as [-> | ->]; unfold process_response; rewrite T0, andb_false_r; reflexivity. }
-  rewrite E. cbn [escaped existsb fst snd map app].
-  rewrite wires_app, apps_app, wires_map_App, apps_map_App, view_app, V0.
-  destruct Hmt as [-> | ->]; cbn; auto.
+  assert (E : process_response k0 now id observe tok = (k0, [], false)).
+  { unfold process_response; rewrite T0, andb_false_r; reflexivity. }
+  destruct Hmt as [-> | ->]; rewrite E; cbn [escaped existsb fst snd map app];
+    rewrite wires_app, apps_app, wires_map_App, apps_map_App, view_app, V0; cbn; auto.
 Qed.
